@@ -2012,9 +2012,15 @@ func JsonObject(ctx context.Context, scope *ReferenceScope, fn parser.Function) 
 		return value.NewNull(), nil
 	}
 
+	current := scope.Records[0].view.RecordSet[scope.Records[0].recordIndex]
+	if 0 < len(current) && current.GroupLen() < 1 {
+		// The record that stands for an aggregation over no records holds no values.
+		return value.NewNull(), nil
+	}
+
 	view := NewView()
 	view.Header = scope.Records[0].view.Header.Copy()
-	view.RecordSet = RecordSet{scope.Records[0].view.RecordSet[scope.Records[0].recordIndex].Copy()}
+	view.RecordSet = RecordSet{current.Copy()}
 
 	if len(fn.Args) < 1 {
 		if err := view.SelectAllColumns(ctx, scope); err != nil {
